@@ -2,8 +2,10 @@ import Holpy.C20.Model
 import Holpy.C20.Gen
 import Holpy.C20.Proofs
 import Holpy.C20.ProofsSem
+import Holpy.C20.ProofsTy
 import Holpy.C20.ProofsParse
 import Holpy.C20.ProofsParseCond
+import Holpy.C20.ProofsParseWf
 /-
 C20 — property theorems (helper lemmas: Proofs.lean, ProofsSem.lean, ProofsParse.lean).
 `Exec` is the big-step semantics of Proofs.lean, `holds s e` is `evalE s e = some (.bool true)`,
@@ -44,6 +46,16 @@ example : (∀ v ∈ vcsOf Ex.inv Ex.prog Ex.post, valid v) ∧ (vcsOf Ex.inv Ex
   · refine .whileT (s1 := upd Ex.s1 "a" 0) ?_ (.assign ?_) (.whileF ?_) <;>
       simp [Ex.s1, evalE, evalBin, upd]
 
+/-- The same for `imp.vcg` (imperative/imp.py): if every assumption of the theorem
+`A₁ ⟶ … ⟶ Aₙ ⟶ Valid P c Q` that `vcg`/`vcg_norm` return is valid, the triple holds. (`vcsH` is the
+list of those assumptions: the conditions of `get_vcs` without the `== true` shortcut.) -/
+theorem vcg_sound (p q : Expr) (c : Com) (hv : ∀ v ∈ vcsH p c q, valid v)
+    (s s' : State) (hp : holds s p) (hex : Exec c s s') : holds s' q :=
+  vcs_sound p q c (allValid_getVcs _ hv) s s' hp hex
+
+/-- non-vacuity: the loop `Ex.prog` has three `imp.vcg` conditions, all valid. -/
+example : (vcsH Ex.inv Ex.prog Ex.post).length = 3 ∧ vcsH Ex.inv Ex.prog Ex.post = vcsOf Ex.inv Ex.prog Ex.post := by decide
+
 /-! ### the interpreter and the semantics -/
 
 /-- The big-step semantics is deterministic. -/
@@ -83,12 +95,35 @@ example : parseCondToks (toks (.un .not (.bin .and (.bin .eq (.bin .sub (.bin .s
     some (.un .not (.bin .and (.bin .eq (.bin .sub (.bin .sub (.var "a") (.var "b")) (.un .neg (.int 3))) (.int 0)) (.bool true))) := by
   decide
 
+/-- non-vacuity with a loop: every VC `get_vcs` produces for `Ex.prog` is in the assertion language and reads back as itself. -/
+example : ∀ v ∈ vcsOf Ex.inv Ex.prog Ex.post, wfC v = true ∧ parseCondToks (toks v) = some v := by decide
+
 /-- … and exactly the same expression when it contains no negative constant (what parser2 itself produces). -/
 theorem print_parse_id (e : Expr) (h : wfC e = true) (hn : noNegConst e = true) : parseCondToks (toks e) = some e := by
   rw [parse_toks e h, normNeg_id e hn]
 
 example : wfC (.bin .imp (.bin .imp (.bool true) (.bool true)) (.ite (.bool true) (.bool true) (.bool true))) = true ∧
     noNegConst (.bin .imp (.bin .imp (.bool true) (.bool true)) (.ite (.bool true) (.bool true) (.bool true))) = true := by decide
+
+/-- The hypothesis `wfC e` of the theorems above is not vacuous for what the code builds: every condition
+the grammar returns satisfies it (and `wfC` is decidable; the driver evaluates it on every generated
+condition, on every VC `compute_wp` produces and on every result of the real `cond_parser`). -/
+theorem parse_produces_wfC (ts : List Tok) (e : Expr) (h : parseCondToks ts = some e) : wfC e = true :=
+  parse_wfC h
+
+example : parseCondToks [.tilde, .lp, .id "a", .le, .num 3, .amp, .ktrue, .rp] =
+    some (.un .not (.bin .and (.bin .le (.var "a") (.int 3)) (.bool true))) := by decide
+
+/-- Hence: whatever condition the user enters, printing the parsed condition and parsing it again gives
+the same condition (up to the reading of negative constants, which the parser itself never produces). -/
+theorem reparse_of_parsed (ts : List Tok) (e : Expr) (h : parseCondToks ts = some e) :
+    parseCondToks (toks e) = some (normNeg e) :=
+  parse_toks e (parse_wfC h)
+
+example : parseCondToks [.id "a", .minus, .id "b", .minus, .id "c", .eqeq, .num 0] =
+      some (.bin .eq (.bin .sub (.var "a") (.bin .sub (.var "b") (.var "c"))) (.int 0)) ∧
+    parseCondToks (toks (.bin .eq (.bin .sub (.var "a") (.bin .sub (.var "b") (.var "c"))) (.int 0))) =
+      some (.bin .eq (.bin .sub (.var "a") (.bin .sub (.var "b") (.var "c"))) (.int 0)) := ⟨by decide, by decide⟩
 
 /-- The condition shown to the user, when read back, has the same value in every state as the
 condition computed. PARTIAL: stated on token sequences; the step from the printed string to the
@@ -113,6 +148,27 @@ theorem sem_adequate (c : Com) (hw : WS c) (s s' : State) : Gen.Sem (embed c) s 
 
 example : WS (.cond (.bin .eq (.var "a") (.int 0)) (.assign "a" (.int 1)) .skip) :=
   ⟨fun _ => ⟨_, rfl⟩, fun _ => ⟨_, rfl⟩, trivial⟩
+
+/-- The hypothesis of `sem_adequate` is decidable: `wsCom c` (guards are well-typed conditions,
+assigned expressions well-typed integer expressions; Model.lean) implies it. The driver evaluates
+`wsCom` on every generated program, so the theorem applies to what the harness builds. -/
+theorem sem_adequate_ws (c : Com) (hw : wsCom c = true) (s s' : State) : Gen.Sem (embed c) s s' ↔ Exec c s s' :=
+  sem_adequate c (ws_of_wsCom c hw) s s'
+
+/-- non-vacuity with a loop: `while (0 < a) {[0 <= a] a := a - 1}` is well-sorted, and `Sem` holds
+of its run from a = 1. -/
+example : wsCom Ex.prog = true ∧ Gen.Sem (embed Ex.prog) Ex.s1 (upd Ex.s1 "a" 0) := by
+  refine ⟨by decide, (sem_adequate_ws Ex.prog (by decide) _ _).mpr ?_⟩
+  refine .whileT (s1 := upd Ex.s1 "a" 0) ?_ (.assign ?_) (.whileF ?_) <;>
+    simp [Ex.s1, evalE, evalBin, upd]
+
+/-- Well-typed expressions always have a value of their sort (so `holds`/`Exec` never get stuck on
+what `convert_hol` can translate). -/
+theorem typed_total (s : State) (e : Expr) :
+    (tyA e = true → ∃ v, evalE s e = some (.int v)) ∧ (tyC e = true → ∃ b, evalE s e = some (.bool b)) :=
+  ty_sound s e
+
+example : tyC (.ite (.bin .ge (.var "a") (.int 0)) (.bin .eq (.fn1 .abs (.var "a")) (.var "a")) (.bool false)) = true := by decide
 
 /-- the rule list translated is the one the proof above was written for -/
 theorem sem_rules_pinned : Gen.semRuleNames =
